@@ -287,9 +287,7 @@ class NP:
     if len(kinds) >= 2 and kinds[0] == 'all' and kinds[1] == 'new' and all(k == 'all' for k in kinds[2:]):
       return TH.addaxis1(st.term)
     if kinds[0] == 'int' and all(k == 'all' for k in kinds[1:]):
-      i = pattern[0][1]
-      d0 = st.shape.dims[0]
-      i = z3.simplify(z3.If(i < 0, i + d0, i))
+      i = self.nonneg_index(cx, pattern[0][1], st.shape.dims[0])
       if r == 1:
         return TH.at1(st.term, i) if elem_sort_real else z3.ToInt(TH.at1(st.term, i))
       return TH.row(st.term, i)
@@ -317,12 +315,47 @@ class NP:
       return None
     return list(range(dn))[slice(lo, hi)]
 
+  def nonneg_index(self, cx, i, d0):
+    """python index -> position: i itself when the path condition gives i >= 0 (keeps terms free of if-then-else)"""
+    si = z3.simplify(i)
+    if z3.is_int_value(si):
+      return si if si.as_long() >= 0 else z3.simplify(si + d0)
+    sv = z3.Solver()
+    sv.set(timeout=1000)
+    sv.add(*[c for c in cx.p.pc if not z3.is_quantifier(c) and not (z3.is_and(c) and any(z3.is_quantifier(x) for x in c.children()))])
+    sv.add(i < 0)
+    if sv.check() == z3.unsat:
+      return i
+    return z3.simplify(z3.If(i < 0, i + d0, i))
+
   def setitem(self, cx, base, idx, v, augmented=False):
     p = cx.p
     if not isinstance(base, VArr):
       raise Unsupported('item assignment on %r (line %s)' % (base, cx.line()))
     st = cx.st(base)
-    self.write(cx, base, 'item assignment', value=None)
+    value = None
+    if st.shape.concrete and st.term is not None:
+      sv = scalar_term(cx, v) if isinstance(v, (VInt, VReal, VBool)) else None
+      if st.shape.rank == 1 and isinstance(idx, VInt) and sv is not None:
+        i = self.nonneg_index(cx, idx.t, st.shape.dims[0])
+        if not (z3.is_const(sv) or z3.is_rational_value(sv)):
+          nm = fresh('stored', z3.RealSort())               # name the stored value: terms used in e-matching patterns
+          p.assume(nm == sv)                                # must not contain if-then-else
+          sv = nm
+        if not z3.is_const(i) and not z3.is_int_value(i):
+          ni = fresh('pos', z3.IntSort())
+          p.assume(ni == i)
+          i = ni
+        value = TH.upd1(st.term, i, sv)                     # a[i] = s
+      elif isinstance(idx, VArr) and cx.st(idx).kind == 'b' and sv is not None and st.shape.rank == 1 and cx.st(idx).term is not None:
+        mt = cx.st(idx).term
+        if z3.is_app(mt) and mt.decl().name() == 'cmp_eq_s' and mt.arg(0).eq(st.term):
+          value = TH.setwhere_eq(st.term, mt.arg(1), sv)    # a[a == c] = s
+      elif isinstance(idx, VSlice) and idx.lo is None and idx.hi is None and idx.step is None and isinstance(v, VArr):
+        vs = cx.st(v)
+        if vs.term is not None and vs.shape.concrete and vs.shape.rank == st.shape.rank:
+          value = vs.term                                   # a[:] = b  (same shape: numpy raises otherwise)
+    self.write(cx, base, 'item assignment', value=value)
     if st.kind in ('i', 'b') and isinstance(v, (VArr, VInt)):
       f = cx.vf_of(v)
       cur = cx.st(base)
@@ -955,8 +988,8 @@ def install(lib):
   @method('ravel')
   def _ravel(cx, a, **kw):
     st = cx.st(a)
-    return cx.new(TH.ravel(st.term) if st.term is not None else None, [st.shape.size()], st.kind, st.owner,
-                  base=(a.loc, st.version), vf=st.vf)
+    t_ = st.term if (st.shape.rank == 1 or st.term is None) else TH.ravel(st.term)
+    return cx.new(t_, [st.shape.size()], st.kind, st.owner, base=(a.loc, st.version), vf=st.vf)
 
   @method('flatten')
   def _flatten(cx, a, **kw):
